@@ -684,6 +684,16 @@ class Gen:
             return self.lit(t)
         k = r.random()
         fs = [f for f in self.funcs if f[2] == [t]] if self.c.funcs else []
+        if depth > 1 and t in ("int", "string", "bool") and r.random() < 0.06:
+            # the same TEXT as both operands (round 6: an "optimisation" that evaluates textually identical operands once)
+            e = self.expr("int" if t == "bool" else t, scope, depth - 1)
+            if e[0] not in ("int", "str", "bool", "var"):
+                ge = e if e[0] in ("call", "group", "len", "itoa", "index") else ("group", e)
+                if t == "int":
+                    return ("bin", r.choice(["+", "*", "-"]), ge, ge, "int")
+                if t == "string":
+                    return ("bin", "+", ge, ge, "string")
+                return ("cmp", r.choice(["==", "<=", "!="]), ge, ge)
         if fs and k < 0.2 and depth > 0:
             f = r.choice(fs)
             return ("call", f[0], [self.expr(pt, scope, depth - 1) for _, pt in f[1]], f[2])
